@@ -642,6 +642,15 @@ func (o *operation) handle() {
 	o.methodConf.handler.ServeHTTP(o.writer, o.request)
 }
 
+var errExtraRequestMessage = errors.New("method takes a single request message, but the client sent another one")
+
+// extraRequestMessage reports whether a second request message is an error
+// that must be caught here: the method takes exactly one, and the server's
+// protocol has no envelopes, so the messages would run together into one body.
+func (o *operation) extraRequestMessage() bool {
+	return o.serverEnveloper == nil && o.methodConf.streamType&connect.StreamTypeClient == 0
+}
+
 func (o *operation) resolveMethod(transcoder *Transcoder) error {
 	uriPath := o.request.URL.Path
 	if o.client.protocol.protocol() == ProtocolREST {
@@ -948,6 +957,11 @@ func (r *envelopingReader) prepareNext() error {
 			r.rw.reportError(err)
 			return err
 		}
+		if r.current != nil && r.rw.op.extraRequestMessage() {
+			err = malformedRequestError(errExtraRequestMessage)
+			r.rw.reportError(err)
+			return err
+		}
 		r.current = io.LimitReader(r.r, int64(env.length))
 	}
 
@@ -1045,6 +1059,9 @@ func (r *transformingReader) Close() error {
 }
 
 func (r *transformingReader) prepareMessage() error {
+	if r.consumedFirst && r.rw.op.extraRequestMessage() {
+		return malformedRequestError(errExtraRequestMessage)
+	}
 	r.consumedFirst = true
 	if err := r.msg.advanceToStage(r.rw.op, stageSend); err != nil {
 		return err
